@@ -284,11 +284,11 @@ def spec_to_value(prop, spec):  # noqa: PLR0911, PLR0912, C901
     if isinstance(prop, (xs.DurationAttributeProperty, xs.NodeDurationProperty)):
         return spec / 1_000_000
     if isinstance(prop, (xs.QNameAttributeProperty, xs.NodeTextQNameProperty)):
-        return etree.QName(spec[0], spec[1])
+        return _qname(spec[0], spec[1])
     if isinstance(prop, xs.DecimalListAttributeProperty):
         return [Decimal(s) for s in spec]
     if isinstance(prop, xs.NodeTextQNameListProperty):
-        return [etree.QName(a, b) for a, b in spec]
+        return [_qname(a, b) for a, b in spec]
     if isinstance(prop, xs.ExtensionNodeProperty):
         return xs.ExtensionLocalValue([xv.build_ext_element(s) for s in spec])
     if isinstance(prop, (xs.AnyEtreeNodeListProperty, xs.AnyEtreeNodeProperty)):
@@ -305,6 +305,13 @@ def spec_to_value(prop, spec):  # noqa: PLR0911, PLR0912, C901
     if isinstance(spec, (list, tuple)):
         return list(spec)
     return spec
+
+
+def _qname(ns, local):
+    """QName members are typed xml_utils.QName (the library's copyable subclass of lxml's QName; what its own readers
+    and namespace helpers produce) - a plain lxml QName cannot be deep-copied."""
+    from sdc11073 import xml_utils
+    return xml_utils.QName(ns, local)
 
 
 def is_mandatory_without_default(obj, name, prop) -> bool:
